@@ -40,6 +40,7 @@ for d in sorted(glob.glob(V+'/seeded/C*/')):
     r=res.get(n,'')
     mm=re.search(r'first=(\S+)',r)
     today=(mm.group(1) if mm else '')
+    if m.get('obsolete'): today='('+m['obsolete']+')'
     if 'patch-no-longer-applies' in r: today='(patch no longer applies: the code was repaired since; caught when recorded)'
     if not det:
         vs=[l for l in open(d+'check_with_patch.log') if l.startswith('VIOLATION')] if os.path.exists(d+'check_with_patch.log') else []
